@@ -14,3 +14,7 @@ def run(chk):
                        'outside the manager block (covered by the C17 inventory).')
     inits.rule_reset(chk, P, 'I')
     inits.rule_handlers(chk, P, 'I5a', 'I5b', 'I5c')
+    # the ring itself is not cleared by init: whoever fills a slot inside the library (the init-time self-tests) must define every field
+    # group it uses, or the previous job of the slot decides what the new manager does
+    from . import c20
+    c20.rule_job_setup(chk, P, 'I6', floor=20)
